@@ -966,11 +966,11 @@ func main() {
 	out.Imports = "From Verif Require Import Base.Lin Model.PlayerRegistry.\n"
 	out.Rule = "sequential histories: 24-40 calls (canRegister/register/unregister/Disconnect/login via authSessionHandler.Activated/lookups) over a pool of 3-7 player objects sharing 1-3 base names in random case spellings and 1-3 UUIDs, offline and online, kick-existing on and off, a full lookup snapshot after every mutating call; concurrent histories: 16 goroutines x 3-6 barrier rounds of atomic registry calls, linearization searched in Go and validated in Coq; races: 2 logins (same name/UUID or not) started at once through Activated, optionally against a pre-registered player, outcome must be produced by some schedule of the model's login threads. distinct = distinct Coq term; non-trivial = a call was rejected, a player was replaced/kicked, a DisconnectEvent fired, or calls overlapped on the same name or UUID"
 
-	var jobs []job
+	var seqJobs, linJobs, raceJobs []job
 	modes := [][2]bool{{false, false}, {true, false}, {true, true}, {false, true}}
 
 	// (a) sequential histories
-	nSeq := f.Count(150)
+	nSeq := f.Count(110)
 	for i := 0; i < nSeq; i++ {
 		r := rng.Fork()
 		md := modes[[]int{0, 0, 1, 2, 2, 3}[r.Intn(6)]]
@@ -979,7 +979,7 @@ func main() {
 		allowFail := r.Chance(1, 3)
 		ops := genSeqOps(r, pool, kick, r.Range(24, 40), allowFail)
 		var steps []histStep
-		jobs = append(jobs, job{
+		seqJobs = append(seqJobs, job{
 			run: func() { steps = runSeq(online, kick, pool, ops) },
 			emit: func() {
 				nt := false
@@ -1001,7 +1001,7 @@ func main() {
 	}
 
 	// (b) concurrent histories (kick off: each call is one critical section)
-	nLin := f.Count(40)
+	nLin := f.Count(24)
 	for i := 0; i < nLin; i++ {
 		r := rng.Fork()
 		online := r.Bool()
@@ -1020,7 +1020,7 @@ func main() {
 		var h []callRec
 		var hung, complete bool
 		var order []int
-		jobs = append(jobs, job{
+		linJobs = append(linJobs, job{
 			run: func() {
 				h, hung = runLin(online, pool, rounds)
 				for _, v := range [][2]bool{{false, false}, {true, false}, {false, true}, {true, true}} {
@@ -1058,7 +1058,7 @@ func main() {
 	}
 
 	// (c) racing logins
-	nRace := f.Count(60)
+	nRace := f.Count(36)
 	for i := 0; i < nRace; i++ {
 		r := rng.Fork()
 		md := modes[[]int{0, 0, 1, 2, 3}[r.Intn(5)]]
@@ -1080,7 +1080,7 @@ func main() {
 		}
 		var results []result
 		var final result
-		jobs = append(jobs, job{
+		raceJobs = append(raceJobs, job{
 			run: func() { results, final = runRace(online, kick, pool, pre, logins) },
 			emit: func() {
 				tags := []string{"kind=race", fmt.Sprintf("mode=online:%v,kick:%v", online, kick)}
@@ -1097,6 +1097,23 @@ func main() {
 					true, tags...)
 			},
 		})
+	}
+
+	// interleave the three kinds so that every shard gets a similar mix (evaluation cost differs by kind)
+	var jobs []job
+	for i, j, k := 0, 0, 0; i < len(seqJobs) || j < len(linJobs) || k < len(raceJobs); {
+		for n := 0; n < 9 && i < len(seqJobs); n++ {
+			jobs = append(jobs, seqJobs[i])
+			i++
+		}
+		for n := 0; n < 2 && j < len(linJobs); n++ {
+			jobs = append(jobs, linJobs[j])
+			j++
+		}
+		for n := 0; n < 3 && k < len(raceJobs); n++ {
+			jobs = append(jobs, raceJobs[k])
+			k++
+		}
 	}
 
 	// run the jobs on a few workers (every job owns its proxy instance); emit in generation order.
